@@ -56,6 +56,13 @@ def compare(ctx, text, sysname, ref, strutils, kind):
                 oki = goti[1] == int(math.ceil(f))
             if not isinstance(goti[1], int) or isinstance(goti[1], bool):
                 oki = False
+            if type(f) is not float:
+                # which numeric type carries the quantity is not part of C10's statement; the module returns a float
+                # unless return_int is asked for (callers format it, divide it, serialise it)
+                ctx.beyond('Units', {'kind': 'result-type', 'got': type(f).__name__},
+                           {'text': text, 'unit_system': sysname, 'observed': repr(f)},
+                           'string_to_bytes(%r, %r) returns the %s %r; the module returns a float unless return_int is given' % (
+                               text, sysname, type(f).__name__, f))
             if not ok:
                 sig = {'kind': 'value', 'sys': sysname, 'base': ref['base'], 'exp': ref['exp'], 'bits': ref['bits']}
             elif not oki:
@@ -127,7 +134,7 @@ def run(ctx):
     from oslo_utils import strutils
     from oslo_utils.imageutils import qemu
     from vf import purity
-    _rec = purity.Recorder(strutils, ['string_to_bytes'], every=1)
+    _rec = purity.Recorder(strutils, ['string_to_bytes'], every=7)     # a sample across all stages (some 300k calls)
     _rec.__enter__()
     quick = ctx.quick
     ctx.assumptions += [
@@ -240,6 +247,9 @@ def run(ctx):
 
         def violation(self, *a):
             Probe.n += 1
+
+        def beyond(self, *a):
+            pass
     try:
         strutils.UNIT_PREFIX_EXPONENT['Gi'] = 2
         compare(Probe(), '1GiB', 'IEC', {'err': 'none', 'neg': False, 'mant': '1', 'base': 1024, 'exp': 3, 'bits': False},
